@@ -150,6 +150,17 @@ func (m *DHCPMon) Request(msg refdec.DHCPMsg, srcIP netip.Addr, captured bool) {
 	r.reqIP, _ = msg.OptIP4(50)
 	r.serverID, r.hasSID = msg.OptIP4(54)
 	switch r.typ {
+	case refdec.DHCPDiscover, refdec.DHCPRequest, refdec.DHCPDecline, refdec.DHCPRelease:
+		// a client whose capture state changed since the ACK belongs to the other subnet now: with its next message of any of
+		// these kinds the server replaces its lease record (by design, DESIGN Corrections "capture generations"), answered or
+		// not - the generous shadow ends there
+		for a, b := range m.held {
+			if b.client == r.client && b.captured != captured {
+				delete(m.held, a)
+			}
+		}
+	}
+	switch r.typ {
 	case refdec.DHCPDiscover:
 		r.state = "discover"
 		m.dropAllHeld(r.client) // a client in INIT holds nothing (generous ending for C11)
